@@ -219,3 +219,7 @@ import parts  # noqa: E402
 import parts_misc  # noqa: E402
 
 parts.attach(PROP, parts_misc.REMOVED, parts_misc.SELFCHECK)   # removed nodes are inert; Tree._self_check (models Forest/MiscRemoved.v, Mut/MiscSelfCheck.v; theorems at the end of Properties/C01.v)
+
+import mut_c01_nid  # noqa: E402
+
+parts.attach(PROP, mut_c01_nid.NID_PART)   # explicit node ids: add_child(node_id=) (model Mut/MachineNodeId.v; theorems at the end of Properties/C01.v)
